@@ -325,7 +325,8 @@ def grammar_cover() -> List[Input]:
 
 
 # ---------------------------------------------------------------------------------------
-# inputs INSIDE the classes of the known findings (small, separate stream)
+# inputs INSIDE the classes of the known findings (small, separate stream); the variants of
+# div-zero, empty-enum and import-in-message (fixed in /repo) stay as regression inputs
 # ---------------------------------------------------------------------------------------
 
 def inside_known(rng: random.Random, n: int) -> List[Input]:
